@@ -608,15 +608,22 @@ dexkv_matches_p(const_dexkv_t dkv, struct dt_dt_s d)
 	return res;
 }
 
+static bool __disj_matches_p(const_dexpr_t dex, struct dt_dt_s d);
+
 static bool
 __conj_matches_p(const_dexpr_t dex, struct dt_dt_s d)
 {
 	const_dexpr_t a;
 
 	for (a = dex; a->type == DEX_CONJ; a = a->right) {
-		if (!dexkv_matches_p(a->left->kv, d)) {
+		/* the left cell need not be a DEX_VAL, (a&b)&c */
+		if (!__conj_matches_p(a->left, d)) {
 			return false;
 		}
+	}
+	if (UNLIKELY(a->type == DEX_DISJ)) {
+		/* a disjunction that hasn't been pulled up */
+		return __disj_matches_p(a, d);
 	}
 	/* rightmost cell might be a DEX_VAL */
 	return dexkv_matches_p(a->kv, d);
@@ -628,7 +635,8 @@ __disj_matches_p(const_dexpr_t dex, struct dt_dt_s d)
 	const_dexpr_t o;
 
 	for (o = dex; o->type == DEX_DISJ; o = o->right) {
-		if (__conj_matches_p(o->left, d)) {
+		/* the left cell may be a disjunction itself, (a|b)|c */
+		if (__disj_matches_p(o->left, d)) {
 			return true;
 		}
 	}
